@@ -142,6 +142,30 @@ func genPlan(p *simrt.Tape, noAuctions bool) any {
 	return pl
 }
 
+// GenShaped is gen with most documents replaced by odd-shaped ones (JSON nodes
+// set to null, empty containers or wrong types).  The oracle of this package
+// does not know whether vouch accepts such a document, so only C16 (no crash)
+// uses it.
+func GenShaped(p *simrt.Tape) any {
+	pl := genPlan(p, false).(*plan)
+	o := relaysim.GenOpts{NVals: len(pl.World.Vals), Unresolvable: 20, V1: 30, MaxRelays: 3, MaxProposers: 3, AvoidKnown: true}
+	shape := func(d *relaysim.Doc) *relaysim.Doc {
+		if p.Pct(70) {
+			n := relaysim.GenShapedDoc(p, o)
+			if d != nil {
+				n.Latency = d.Latency
+			}
+			return n
+		}
+		return d
+	}
+	pl.Initial = shape(pl.Initial)
+	for i := range pl.Source {
+		pl.Source[i].Doc = shape(pl.Source[i].Doc)
+	}
+	return pl
+}
+
 type opRec struct {
 	op
 	client            int
